@@ -250,6 +250,10 @@ def write_evidence(pid, tier, seed, obligations, violations, wall, info):
         exhaustive=False,
         per_obligation=obligations,
     )
+    progs = sum((o.get('detail') or {}).get('programs', 0) for o in obligations if isinstance(o.get('detail'), dict))
+    if progs:
+        cov['programs'] = progs
+        cov['disagreements_checked'] = sum(len(o.get('replays') or []) for o in obligations)
     ev = dict(property_id=pid, tier=tier, seed=seed, level=info.get('level', 'other'), coverage=cov,
               assumptions=info.get('assumptions', []), wall_s=round(wall, 1), violations=len(violations))
     os.makedirs(os.path.join(OUT, 'evidence'), exist_ok=True)
